@@ -275,7 +275,8 @@ class Verdict:
             "drift": self.drift[:20], "notes": self.notes[:40],
         }
         os.makedirs(EVID, exist_ok=True)
-        with open(os.path.join(EVID, f"{self.pid}.json"), "w") as f:
+        # checks beyond the listed properties (ids X..) keep their evidence with their other output
+        with open(os.path.join(EVID, f"{self.pid}.json") if not self.pid.startswith("X") else os.path.join(outdir(self.pid), "evidence.json"), "w") as f:
             json.dump(ev, f, indent=1, default=str)
         if self.violations:
             rp = os.path.join(outdir(self.pid), f"replay_{self.tier}_{self.seed}.json")
